@@ -493,10 +493,21 @@ let () = register "c15" (fun line ->
 let () = register "c15hc" (fun line ->
   match S.split_on_char ' ' line with
   | [rise; fall; results] ->
-    let r = n_of_int (int_of_string rise) and f = n_of_int (int_of_string fall) in
+    let r = ref (n_of_int (int_of_string rise)) and f = ref (n_of_int (int_of_string fall)) in
     let st = ref { HostSet.flag = true; succ = N0; fail = N0 } in
     let b = Buffer.create 16 in
-    S.iter (fun c -> st := HostSet.hc_step r f !st (c = '1'); Buffer.add_char b (if !st.HostSet.flag then 'H' else 'u')) results;
+    (* "R<d>" / "F<d>": the thresholds in force change before the next check *)
+    let i = ref 0 in
+    while !i < S.length results do
+      let c = Stdlib.String.get results !i in
+      (if c = 'R' || c = 'F' then begin
+         let v = n_of_int (Char.code (Stdlib.String.get results (!i + 1)) - 48) in
+         (if c = 'R' then r := v else f := v); incr i
+       end else begin
+         st := HostSet.hc_step !r !f !st (c = '1'); Buffer.add_char b (if !st.HostSet.flag then 'H' else 'u')
+       end);
+      incr i
+    done;
     Buffer.contents b ^ " usable=" ^ (if !st.HostSet.flag then "1" else "0")
   | _ -> failwith "bad c15hc case")
 
@@ -772,7 +783,8 @@ let () = register "c04" (fun line ->
     | Some v -> Some (hk ^ "=" ^ c04_render v)
     | None -> None) ks in
   S.concat " ; " (L.rev !replies) ^ " || " ^ S.concat " " (L.sort compare data) ^ " || " ^ S.concat "," (L.rev !execs)
-  ^ " || redirected-to-client=0 lost-or-duplicated-keys=0")
+  ^ " || redirected-to-client=0 lost-or-duplicated-keys=0"
+  ^ (if f.(2) = "2" then " sent-to-a-node-that-does-not-own-the-slot=0" else ""))
 
 (* ---------------- C07: healing ---------------- *)
 let () = register "c07" (fun line ->
@@ -973,7 +985,7 @@ let () = register "c06tcp" (fun line ->
   let outs = L.map (fun op ->
     let body = S.sub op 1 (S.length op - 1) in
     let res = match Stdlib.String.get op 0 with
-      | 'o' ->
+      | 'o' | 'H' ->
         (match S.split_on_char ':' op with
          | [_; r] when S.length r = 2 && Stdlib.String.get r 0 = 'b' ->
            let b = Char.code (Stdlib.String.get r 1) - 48 in
